@@ -80,7 +80,7 @@ PROPS = {
     },
     "C10": {
         "world": "dsim.worlds.midcircuit.MidCircuitWorld",
-        "tiers": {"quick": {"runs": 480, "chunk": 4, "run_cap_s": 200, "wall_cap_s": 600},
+        "tiers": {"quick": {"runs": 480, "chunk": 4, "run_cap_s": 900, "wall_cap_s": 800},
                   "thorough": {"runs": 12000, "chunk": 8, "run_cap_s": 400, "wall_cap_s": 2700}},
         "rule": "one evaluation = one simulated run: 3-16 programs (1-5 qubits, 1-6 MEASURE/CMEASURE gates, dictionary / function / "
                 "class control, nesting depth <= 3, random initial states) executed on two long-lived backend objects: (exact) "
@@ -100,7 +100,7 @@ PROPS = {
     },
     "C01": {
         "world": "dsim.worlds.device.GateSemanticsWorld",
-        "tiers": {"quick": {"runs": 640, "chunk": 4, "run_cap_s": 200, "wall_cap_s": 600},
+        "tiers": {"quick": {"runs": 640, "chunk": 4, "run_cap_s": 900, "wall_cap_s": 800},
                   "thorough": {"runs": 16000, "chunk": 8, "run_cap_s": 400, "wall_cap_s": 2700}},
         "rule": "one evaluation = one simulated run: 6-30 calls on four long-lived backend objects (cirq exact, cirq with shots, sympy, "
                 "shot-only stub): exact simulation of random circuits over the full gate set (multi-controlled parameterised gates, idle "
@@ -116,7 +116,7 @@ PROPS = {
     },
     "C02": {
         "world": "dsim.worlds.device.ExpectationWorld",
-        "tiers": {"quick": {"runs": 640, "chunk": 4, "run_cap_s": 200, "wall_cap_s": 600},
+        "tiers": {"quick": {"runs": 640, "chunk": 4, "run_cap_s": 900, "wall_cap_s": 800},
                   "thorough": {"runs": 16000, "chunk": 8, "run_cap_s": 400, "wall_cap_s": 2700}},
         "rule": "one evaluation = one simulated run: 5-24 calls of get_expectation_value / get_variance / get_standard_error on four "
                 "long-lived backends (cirq exact, cirq shots, sympy, shot-only stub) for random operators (identity, complex "
@@ -125,7 +125,7 @@ PROPS = {
                 "estimate / variance / standard error recounted exactly from the recorded histograms, plus seeded 6.5 sigma closeness "
                 "to the exact value; documented refusals provoked. Distinct = (quantity, backend, width, complex?, mixed?, desired?, "
                 "initial state?, #terms) tuples; non-trivial = run with >=3 calls on >=2 backends or >=1 refusal.",
-        "probes": ["C02.exact_recount_from_recorded_histograms"],
+        "probes": ["C02.exact_recount_from_recorded_histograms", "C02.complex_two_pass_recount"],
         "components_real": ["Backend.get_expectation_value / get_variance / get_standard_error and the private routes behind them, "
                             "measurement_basis_gates, translate_operator, CirqSimulator.expectation_value_from_prepared_state, SympySimulator"],
         "components_stub": ["ShotOnlyDevice(Backend) (frequency route with statevector_available=False)"],
@@ -133,7 +133,7 @@ PROPS = {
     },
     "C20": {
         "world": "dsim.worlds.phase.PhaseWorld",
-        "tiers": {"quick": {"runs": 480, "chunk": 4, "run_cap_s": 200, "wall_cap_s": 600},
+        "tiers": {"quick": {"runs": 480, "chunk": 4, "run_cap_s": 900, "wall_cap_s": 800},
                   "thorough": {"runs": 12000, "chunk": 8, "run_cap_s": 400, "wall_cap_s": 2700}},
         "rule": "one evaluation = one simulated run of 4-18 steps: iterative QPE (register 1-6, 1-3 shots, two simulate() calls per "
                 "solver object) on eigenstates with exactly representable eigenphases (diagonal and non-diagonal commuting "
@@ -151,7 +151,7 @@ PROPS = {
     },
     "C07": {
         "world": "dsim.worlds.ansatz.AnsatzWorld",
-        "tiers": {"quick": {"runs": 480, "chunk": 3, "run_cap_s": 300, "wall_cap_s": 700},
+        "tiers": {"quick": {"runs": 480, "chunk": 3, "run_cap_s": 900, "wall_cap_s": 1000},
                   "thorough": {"runs": 8000, "chunk": 6, "run_cap_s": 600, "wall_cap_s": 2700}},
         "rule": "one evaluation = one simulated run: one long-lived ansatz object (class, molecule, encoding, ordering and options drawn "
                 "per run from the catalogue of all built-in ansaetze) driven through 4-14 steps: build_circuit (default / keyword incl. "
@@ -170,7 +170,7 @@ PROPS = {
     },
     "C08": {
         "world": "dsim.worlds.solver.SolverWorld",
-        "tiers": {"quick": {"runs": 320, "chunk": 2, "run_cap_s": 300, "wall_cap_s": 800},
+        "tiers": {"quick": {"runs": 320, "chunk": 2, "run_cap_s": 900, "wall_cap_s": 1000},
                   "thorough": {"runs": 6000, "chunk": 4, "run_cap_s": 600, "wall_cap_s": 2700}},
         "rule": "one evaluation = one simulated run: one VQESolver (ansatz, molecule or qubit Hamiltonian, encoding, ordering, ref_state / "
                 "projective / deflation / penalty options, exact or 2000 shots drawn per run) driven through 4-15 steps of "
